@@ -33,22 +33,13 @@ Qed.
 Lemma len_items s : len (sl_items s) = len (sl_nodes s).
 Proof. unfold len, sl_items. rewrite map_length. reflexivity. Qed.
 
-(** ZRANGE: outside the recorded class the code's index translation is Redis' rule *)
-Theorem zrange_fwd_redis_v1 s start stop :
-  sl_length s = len (sl_nodes s) -> kf_zrange_fwd (sl_length s) start stop = false ->
-  zrange_of_v1 s start stop false = redis_slice (sl_items s) start stop.
+Ltac bool_eq := apply Bool.eq_iff_eq_true; rewrite ?Bool.orb_true_iff, ?Bool.andb_true_iff, ?Z.leb_le, ?Z.ltb_lt, ?Z.eqb_eq; lia.
+Ltac cond_false H := apply Bool.orb_false_iff in H; destruct H as [?H ?H]; rewrite ?Z.leb_gt, ?Z.ltb_ge in *.
+
+Lemma items_nil_len0 s : sl_length s = len (sl_nodes s) -> sl_length s = 0 -> sl_items s = [].
 Proof.
-  intros E K. unfold zrange_of_v1, redis_slice, redis_range, sl_len. rewrite len_items, <- E.
-  set (ln := sl_length s) in *. unfold kf_zrange_fwd in K.
-  assert (Hln : 0 <= ln) by (rewrite E; apply len_nonneg).
-  destruct (Z.eqb_spec ln 0) as [Z0|NZ].
-  - assert (sl_items s = []) as ->.
-    { pose proof (len_items s) as L. rewrite <- E in L. rewrite Z0 in L. unfold len in L.
-      destruct (sl_items s); [reflexivity|cbn in L; lia]. }
-    brk; try reflexivity; exfalso; lia.
-  - revert K. brk; intro K; try discriminate; try reflexivity; try lia;
-    rewrite rbr_items by (try exact E; lia); fold ln; brk; try lia; try reflexivity;
-    f_equal; try lia; f_equal; lia.
+  intros E Z0. pose proof (len_items s) as L. rewrite <- E, Z0 in L. unfold len in L.
+  destruct (sl_items s); [reflexivity|cbn in L; lia].
 Qed.
 
 Lemma rev_slice {A} (l : list A) a n : (a + n <= length l)%nat ->
@@ -68,6 +59,28 @@ Proof.
   rewrite skipn_len_app. clearbody l2. subst n. rewrite <- (rev_length l2). symmetry. apply firstn_len_app.
 Qed.
 
+(** ZRANGE: outside the recorded class the code's index translation is Redis' rule.
+    (The case analyses below are arranged to keep the number of arithmetic certificates small:
+    coqchk re-checks each of them without the VM.) *)
+Theorem zrange_fwd_redis_v1 s start stop :
+  sl_length s = len (sl_nodes s) -> kf_zrange_fwd (sl_length s) start stop = false ->
+  zrange_of_v1 s start stop false = redis_slice (sl_items s) start stop.
+Proof.
+  intros E K. unfold zrange_of_v1, redis_slice, redis_range, sl_len. rewrite len_items, <- E.
+  assert (Hln : 0 <= sl_length s) by (rewrite E; apply len_nonneg).
+  destruct (Z.eqb_spec (sl_length s) 0) as [Z0|NZ].
+  - rewrite (items_nil_len0 s E Z0). destruct (if _ || _ then None else _) as [[? ?]|]; [rewrite skipn_nil, firstn_nil; reflexivity|reflexivity].
+  - set (ln := sl_length s) in *. unfold kf_zrange_fwd in K.
+    apply Bool.andb_false_iff in K. rewrite Bool.orb_false_iff, Z.ltb_ge, Z.eqb_neq, Z.leb_gt in K.
+    destruct (Z.ltb_spec start 0) as [S0|S0]; destruct (Z.ltb_spec stop 0) as [T0|T0];
+    match goal with |- (if ?c1 then _ else _) = match (if ?c2 then _ else _) with _ => _ end =>
+      assert (C : c1 = c2) by bool_eq; try rewrite C; clear C; destruct c2 eqn:Cnd end;
+    try reflexivity; cond_false Cnd;
+    rewrite rbr_items by (try exact E; lia); fold ln;
+    match goal with |- (if ?c then _ else _) = _ => assert (Cf : c = false) by (apply Z.leb_gt; lia); rewrite Cf; clear Cf end;
+    (f_equal; first [lia | f_equal; lia]).
+Qed.
+
 (** ZREVRANGE: outside the recorded classes it is Redis' rule on the reversed order *)
 Theorem zrange_rev_redis_v1 s start stop :
   sl_length s = len (sl_nodes s) -> kf_zrange_rev (sl_length s) start stop = false ->
@@ -78,19 +91,44 @@ Proof.
   rewrite Lr.
   assert (Ll : length (sl_items s) = Z.to_nat (sl_length s)).
   { rewrite E, <- len_items. unfold len. lia. }
-  set (ln := sl_length s) in *. unfold kf_zrange_rev in K.
-  assert (Hln : 0 <= ln) by (rewrite E; apply len_nonneg).
-  destruct (Z.eqb_spec ln 0) as [Z0|NZ].
-  - assert (sl_items s = []) as ->.
-    { destruct (sl_items s); [reflexivity|cbn in Ll; lia]. }
-    cbn [rev]. brk; try reflexivity; exfalso; lia.
-  - rewrite rbr_items by (try exact E; unfold sat_sub; lia). fold ln. unfold sat_sub in *.
-    revert K. brk; intro K; try discriminate; try lia;
-    match goal with
-    | |- rev (firstn ?n _) = [] => replace n with O by lia; reflexivity
-    | |- rev (firstn ?n (skipn ?a _)) = firstn _ _ =>
-        rewrite (rev_slice (sl_items s) a n) by lia; rewrite Ll; f_equal; try lia; f_equal; lia
-    end.
+  assert (Hln : 0 <= sl_length s) by (rewrite E; apply len_nonneg).
+  destruct (Z.eqb_spec (sl_length s) 0) as [Z0|NZ].
+  - rewrite (items_nil_len0 s E Z0). cbn [rev].
+    destruct (if _ || _ then None else _) as [[? ?]|]; [rewrite skipn_nil, firstn_nil; reflexivity|reflexivity].
+  - set (ln := sl_length s) in *. unfold sat_sub.
+    rewrite !(Z.max_r 0 (ln - 1)) by lia.
+    (* the code's clamped indices *)
+    set (si := if start <? 0 then Z.max (ln + start) 0 else start) in *.
+    set (ei := if stop <? 0 then Z.max (ln + stop) 0 else stop) in *.
+    assert (Hmin : forall x, 0 <= ln - 1 - Z.min x (ln - 1)) by (intro; lia).
+    rewrite (Z.max_r 0 (ln - 1 - Z.min ei (ln - 1))) by apply Hmin.
+    rewrite (Z.max_r 0 (ln - 1 - Z.min si (ln - 1))) by apply Hmin.
+    rewrite rbr_items by (try exact E; apply Hmin). fold ln.
+    assert (Cf : (ln <=? ln - 1 - Z.min ei (ln - 1)) = false) by (apply Z.leb_gt; unfold ei; destruct (Z.ltb_spec stop 0); lia).
+    rewrite Cf. clear Cf.
+    unfold kf_zrange_rev in K. fold si ei in K.
+    apply Bool.orb_false_iff in K. destruct K as [K1 K2]. apply Bool.andb_false_iff in K1, K2.
+    assert (K1' : si < ln \/ ei < ln - 1) by (destruct K1 as [K1|K1]; [left|right]; apply Z.leb_gt, K1).
+    assert (K2' : - ln <= stop \/ si <> 0) by (destruct K2 as [K2|K2]; [left; apply Z.ltb_ge, K2|right; apply Z.eqb_neq, K2]).
+    clear K1 K2.
+    (* Redis' indices in terms of the clamped ones *)
+    assert (Es : Z.max (if start <? 0 then start + ln else start) 0 = Z.max si 0).
+    { unfold si. destruct (Z.ltb_spec start 0); lia. }
+    rewrite Es. clear Es.
+    assert (Hsi0 : 0 <= si \/ 0 <= start) by (unfold si; destruct (Z.ltb_spec start 0); lia).
+    assert (Hs : Z.max si 0 = si) by (unfold si in *; destruct (Z.ltb_spec start 0); lia).
+    rewrite Hs. clear Hs.
+    set (e := if stop <? 0 then stop + ln else stop).
+    assert (He : ei = Z.max e 0 \/ (0 <= stop /\ ei = e)) by (unfold ei, e; destruct (Z.ltb_spec stop 0); [left; lia|right; lia]).
+    assert (Hsi1 : 0 <= si) by (unfold si; destruct (Z.ltb_spec start 0); lia).
+    assert (Hk2 : e < 0 -> si <> 0).
+    { unfold e. destruct (Z.ltb_spec stop 0); [|lia]. intro. destruct K2' as [K2|K2]; [lia|exact K2]. }
+    clearbody si ei e.
+    destruct ((e <? si) || (ln <=? si)) eqn:Cnd.
+    + apply Bool.orb_true_iff in Cnd. rewrite Z.ltb_lt, Z.leb_le in Cnd.
+      replace (Z.to_nat (Z.min (ln - 1 - Z.min si (ln - 1) + 1) ln - (ln - 1 - Z.min ei (ln - 1)))) with O by lia. reflexivity.
+    + cond_false Cnd.
+      rewrite (rev_slice (sl_items s)) by lia. rewrite Ll. f_equal; [|f_equal]; lia.
 Qed.
 
 (** the repaired translation is Redis' rule for all start and stop *)
@@ -99,16 +137,17 @@ Theorem zrange_fwd_redis_v2 s start stop :
   zrange_of_v2 s start stop false = redis_slice (sl_items s) start stop.
 Proof.
   intros E. unfold zrange_of_v2, redis_slice, redis_range, sl_len. rewrite len_items, <- E.
-  set (ln := sl_length s) in *.
-  assert (Hln : 0 <= ln) by (rewrite E; apply len_nonneg).
-  destruct (Z.eqb_spec ln 0) as [Z0|NZ].
-  - assert (sl_items s = []) as ->.
-    { pose proof (len_items s) as L. rewrite <- E in L. rewrite Z0 in L. unfold len in L.
-      destruct (sl_items s); [reflexivity|cbn in L; lia]. }
-    brk; try reflexivity; exfalso; lia.
-  - brk; try reflexivity; try lia;
-    rewrite rbr_items by (try exact E; lia); fold ln; brk; try lia; try reflexivity;
-    f_equal; try lia; f_equal; lia.
+  assert (Hln : 0 <= sl_length s) by (rewrite E; apply len_nonneg).
+  destruct (Z.eqb_spec (sl_length s) 0) as [Z0|NZ].
+  - rewrite (items_nil_len0 s E Z0). destruct (if _ || _ then None else _) as [[? ?]|]; [rewrite skipn_nil, firstn_nil; reflexivity|reflexivity].
+  - set (ln := sl_length s) in *.
+    destruct (Z.ltb_spec start 0) as [S0|S0]; destruct (Z.ltb_spec stop 0) as [T0|T0];
+    match goal with |- (if ?c1 then _ else _) = match (if ?c2 then _ else _) with _ => _ end =>
+      assert (C : c1 = c2) by bool_eq; try rewrite C; clear C; destruct c2 eqn:Cnd end;
+    try reflexivity; cond_false Cnd;
+    rewrite rbr_items by (try exact E; lia); fold ln;
+    match goal with |- (if ?c then _ else _) = _ => assert (Cf : c = false) by (apply Z.leb_gt; lia); rewrite Cf; clear Cf end;
+    (f_equal; first [lia | f_equal; lia]).
 Qed.
 Theorem zrange_rev_redis_v2 s start stop :
   sl_length s = len (sl_nodes s) ->
@@ -119,19 +158,19 @@ Proof.
   rewrite Lr.
   assert (Ll : length (sl_items s) = Z.to_nat (sl_length s)).
   { rewrite E, <- len_items. unfold len. lia. }
-  set (ln := sl_length s) in *.
-  assert (Hln : 0 <= ln) by (rewrite E; apply len_nonneg).
-  destruct (Z.eqb_spec ln 0) as [Z0|NZ].
-  - assert (sl_items s = []) as ->.
-    { destruct (sl_items s); [reflexivity|cbn in Ll; lia]. }
-    cbn [rev]. brk; try reflexivity; exfalso; lia.
-  - brk; try reflexivity; try lia;
-    rewrite rbr_items by (try exact E; lia); fold ln; brk; try lia;
-    match goal with
-    | |- rev (firstn ?n _) = [] => replace n with O by lia; reflexivity
-    | |- rev (firstn ?n (skipn ?a _)) = firstn _ _ =>
-        rewrite (rev_slice (sl_items s) a n) by lia; rewrite Ll; f_equal; try lia; f_equal; lia
-    end.
+  assert (Hln : 0 <= sl_length s) by (rewrite E; apply len_nonneg).
+  destruct (Z.eqb_spec (sl_length s) 0) as [Z0|NZ].
+  - rewrite (items_nil_len0 s E Z0). cbn [rev].
+    destruct (if _ || _ then None else _) as [[? ?]|]; [rewrite skipn_nil, firstn_nil; reflexivity|reflexivity].
+  - set (ln := sl_length s) in *.
+    destruct (Z.ltb_spec start 0) as [S0|S0]; destruct (Z.ltb_spec stop 0) as [T0|T0];
+    match goal with |- (if ?c1 then _ else _) = match (if ?c2 then _ else _) with _ => _ end =>
+      assert (C : c1 = c2) by bool_eq; try rewrite C; clear C; destruct c2 eqn:Cnd end;
+    try reflexivity; cond_false Cnd;
+    rewrite rbr_items by (try exact E; lia); fold ln;
+    match goal with |- rev (if ?c then _ else _) = _ => assert (Cf : c = false) by (apply Z.leb_gt; lia); rewrite Cf; clear Cf end;
+    match goal with |- rev (firstn ?n (skipn ?a _)) = firstn _ _ =>
+      rewrite (rev_slice (sl_items s) a n) by lia; rewrite Ll; (f_equal; first [lia | f_equal; lia]) end.
 Qed.
 
 (** the translation in force: Redis' rule outside the recorded classes (no exception once repaired) *)
@@ -698,6 +737,17 @@ Proof.
     [vm_compute; reflexivity|reflexivity|].
   inversion F as [|? ? H]. vm_compute in H. discriminate.
 Qed.
+
+(** F-04a: ZADD z inf m; ZINCRBY z -inf m stores NaN.  The sum reported by the oracle,
+    NaN, is the IEEE sum of +inf and -inf (Proofs/F64Facts.v inf_minus_inf_bits, by Flocq) *)
+Lemma zincrby_nan_stored :
+  exists d1 d2,
+    exec_zsets 0 empty_db (bs "ZADD") (cmd [bs "ZADD"; kz; bs "inf"; bs "m"])
+      (oracle_of [None; None; Some pinf_bits; None]) = Some (r_int 1, d1) /\
+    exec_zsets 0 d1 (bs "ZINCRBY") (cmd [bs "ZINCRBY"; kz; bs "-inf"; bs "m"])
+      (oracle_of [None; None; Some ninf_bits; None; Some nan_bits]) = Some (FDouble nan_bits, d2) /\
+    eng_zscore d2 kz (bs "m") = Some (Some nan_bits).
+Proof. do 2 eexists. split; [vm_compute; reflexivity|]. split; vm_compute; reflexivity. Qed.
 
 (** F-04a: with NaN stored, removing the only member leaves the key in place
     (ZREM answers 1, the set still has cardinality 1) *)
